@@ -613,6 +613,10 @@ def run(rep, tier):
     rep.floor("resynchronisation stores", resync_target_rule(rep, u), 3)
     rep.floor("gather continuation classes", continuation_rule(rep, u), 5)
     rep.floor("writer classes", writer_spec(rep, u), 100)
+    from props import c19_audit
+    rep.floor("block-table base stores", c19_audit.init_base_rule(rep, u), 2)
+    rep.floor("single-block tests of the gatherer", c19_audit.exact_read_rule(rep, u), 1)
+    c19_audit.history_bound_rule(rep, u)
     nfn, total = memsafe.run_scope(rep, tier, us)
     rep.floor("functions analysed", nfn, 15)
     return driver.finish(
